@@ -15,7 +15,7 @@ ANCHORS = [("lib/debian/copyright.py",
              "License", "_SpaceSeparated", "_LineBased", "_single_line", "_complain", "Copyright",
              "Header", "FilesParagraph", "LicenseParagraph", "_CURRENT_FORMAT", "_KNOWN_FORMATS"]),
            ("lib/debian/deb822.py", ["RestrictedWrapper", "RestrictedField"])]
-BUDGET = {"quick": 2000, "thorough": 24000}
+BUDGET = {"quick": 1200, "thorough": 12000}
 SHARD = 125
 RULE = ("codec cases: line lists / texts over a vocabulary of plain, indented, tab-indented, non-ASCII, empty, "
         "whitespace-only, lone-'.', '..', trailing-blank lines and lines containing LF, CR, FF, NEL, LS pushed through "
@@ -320,9 +320,9 @@ def _codec_case(rng):
 def generate(rng, n, tier):
     for i in range(n):
         r = rng.random()
-        if r < 0.45:
+        if r < 0.52:
             yield _codec_case(rng)
-        elif r < 0.85:
+        elif r < 0.86:
             yield _doc_case(rng)
         else:
             yield _parsedoc_case(rng)
